@@ -24,6 +24,7 @@ RULE = (
     "close(); ALL event boundaries and ALL byte prefixes of every write to a pickle data file during that close are "
     "materialised as crash states (json side files, which rope never reads back: event boundaries only); non-trivial = "
     "state strictly inside a write of a non-empty data file; distinct by (case hash, event index, prefix length)"
+    "; after every event-boundary crash state a recovery session (reopen, clear the history, close normally, reopen) must leave a readable project"
 )
 ASSUMPTIONS = [
     "writes reach the disk in program order (no block reordering, no torn sectors); a crash loses everything after the cut",
